@@ -119,7 +119,6 @@ pub struct ReaderSample {
 pub struct InstanceOwnership {
     pub instance_handle: InstanceHandle,
     pub owner_handle: [u8; 16],
-    pub last_received_time: Time,
 }
 
 pub struct DataReaderEntity<T> {
@@ -416,7 +415,6 @@ impl<T> DataReaderEntity<T> {
                 None => self.instance_ownership.push(InstanceOwnership {
                     instance_handle: sample.instance_handle,
                     owner_handle: sample.writer_guid,
-                    last_received_time: reception_timestamp,
                 }),
             }
         }
@@ -582,21 +580,15 @@ impl<T> DataReaderEntity<T> {
             DestinationOrderQosPolicyKind::ByReceptionTimestamp => self.sample_list.push(sample),
         }
 
-        match self
+        if !self
             .instance_ownership
-            .iter_mut()
-            .find(|x| x.instance_handle == change_instance_handle)
+            .iter()
+            .any(|x| x.instance_handle == change_instance_handle)
         {
-            Some(x) => {
-                if x.last_received_time < reception_timestamp {
-                    x.last_received_time = reception_timestamp;
-                }
-            }
-            None => self.instance_ownership.push(InstanceOwnership {
+            self.instance_ownership.push(InstanceOwnership {
                 instance_handle: change_instance_handle,
-                last_received_time: reception_timestamp,
                 owner_handle: sample_writer_guid,
-            }),
+            });
         }
         Ok(AddChangeResult::Added)
     }
